@@ -12,18 +12,29 @@ import replay as RP
 
 
 class Inst:
-    def __init__(self, F, t):
-        self.R = RP.Runner(F, t, True)
-        with contextlib.redirect_stdout(io.StringIO()):
-            self.e = F.mk(self.R.elem, xsd_check=True, bare=True, lenient=True)
+    def __init__(self, F, t, late=False):
+        """late: the instance is created with xsd_check=False and switched to checking before its first operation"""
+        self.dead = ''
         self.kids = []
+        try:
+            self.R = RP.Runner(F, t, True)
+            with contextlib.redirect_stdout(io.StringIO()):
+                self.e = F.mk(self.R.elem, xsd_check=not late, bare=True, lenient=True)
+                if late:
+                    self.e.xsd_check = True
+        except Exception as ex:   # noqa  -- a class that could be instantiated when the run began no longer can: an observation
+            self.dead = 'constructor:' + type(ex).__name__
 
     def proj(self):
+        if self.dead:
+            return [[self.dead], [], [], [], '']
         p = self.R.project(self.e, self.kids)
         return [p['insw'], p['ordw'], p['parof'], p['attrs'], p['val']]
 
     def step(self, op):
         """returns the observation [ok, exc, insw, ordw, text] or None when the step is inapplicable"""
+        if self.dead:
+            return ['dead', self.dead, [], [], '']
         try:
             self.R.check_applicable(self.e, op)
         except RP.Inapplicable:
@@ -39,7 +50,7 @@ class Inst:
             if op['op'] == 'tostring':
                 text = '!' + hashlib.sha1((type(ex).__name__ + ':' + str(ex)).encode()).hexdigest()[:12]
         p = self.R.project(self.e, self.kids)
-        return [ok, exc, p['insw'], p['ordw'], text]
+        return ['ok' if ok else 'raised', exc, p['insw'], p['ordw'], text]     # first component always a string (comparable in TLC)
 
 
 def battery(F):
@@ -72,18 +83,24 @@ def main():
     out.append(dict(op='battery', when='start', digest=d0, ref=ref, ta='', tb='', sched=[], k=0, inst=0, obs=[], solo=[], other_before=[], other_after=[], ha=[], hb=[]))
     solo_cache = {}
 
-    def solo(t, h):
-        key = (t, json.dumps(h))
+    def solo(t, h, late):
+        key = (t, json.dumps(h), late)
         if key not in solo_cache:
-            x = Inst(F, t)
+            x = Inst(F, t, late)
             solo_cache[key] = [x.step(op) for op in h]
         return solo_cache[key]
-    for (ta, ha, tb, hb) in job['pairs']:
-        sa, sb = solo(ta, ha), solo(tb, hb)
-        for sched in job['schedules']:
+    # every pair in every schedule with both instances created checking, and -- in the first and the last schedule --
+    # with both created unchecked and switched to checking afterwards (the setting is per instance, whenever it is set)
+    runs = [(ta, ha, tb, hb, sched, False) for (ta, ha, tb, hb) in job['pairs'] for sched in job['schedules']]
+    runs += [(ta, ha, tb, hb, sched, True) for (ta, ha, tb, hb) in job['pairs']
+             for sched in [x for x in job['schedules'] if x.count(1) == len(ha) and x.count(2) == len(hb)][:1] +
+                          [x for x in job['schedules'] if x.count(1) == len(ha) and x.count(2) == len(hb)][-1:]]
+    for (ta, ha, tb, hb, sched, late) in runs:
+        sa, sb = solo(ta, ha, late), solo(tb, hb, late)
+        if True:
             if sched.count(1) != len(ha) or sched.count(2) != len(hb):
                 continue
-            A, B = Inst(F, ta), Inst(F, tb)
+            A, B = Inst(F, ta, late), Inst(F, tb, late)
             ia = ib = 0
             for k, who in enumerate(sched):
                 me, other = (A, B) if who == 1 else (B, A)
@@ -94,7 +111,7 @@ def main():
                 else:
                     obs, so = me.step(hb[ib]), sb[ib]
                     ib += 1
-                out.append(dict(op='pairstep', ta=ta, tb=tb, ha=ha, hb=hb, sched=sched, k=k + 1, inst=who, obs=obs, solo=so,
+                out.append(dict(op='pairstep', late=late, ta=ta, tb=tb, ha=ha, hb=hb, sched=sched, k=k + 1, inst=who, obs=obs, solo=so,
                                 other_before=ob, other_after=other.proj(), digest='', ref='', when=''))
     d1 = battery(F)
     out.append(dict(op='battery', when='end', digest=d1, ref=ref, ta='', tb='', sched=[], k=0, inst=0, obs=[], solo=[], other_before=[], other_after=[], ha=[], hb=[]))
